@@ -88,8 +88,18 @@ def handle (j : Json) : R Json := do
       [("may_reuse", toJson (Spec.nrpsPksMayReuse ctx input)), ("domain_ids", jStrs ids)]
   | "hmmdet" =>
     let optsOf (o : Json) : R HmmOpts := do
-      return ⟨(strF o "strictness").toOption.getD "relaxed",
-              ← listOf asStr (fldD o "rule_names" (jArr [])),
+      let strictness := (strF o "strictness").toOption.getD "relaxed"
+      -- rule names: derived from the rule files' content (name, first level, category) and the limits
+      let names ← match o.getObjVal? "rules" with
+        | .ok rj => do
+          let rules ← listOf (fun r => do
+            return (⟨← asStr (← idx r 0), ← asNat (← idx r 1), ← asStr (← idx r 2)⟩ : RuleInfo)) rj
+          -- run_on_record stores `sorted(rule names)`
+          pure (setOf (rulesetNames rules strictness (← listOf asStr (fldD o "limit_names" (jArr [])))
+                  (← listOf asStr (fldD o "limit_categories" (jArr [])))))
+        | .error _ => listOf asStr (fldD o "rule_names" (jArr []))
+      return ⟨strictness,
+              names,
               boolFD o "fungi" false,
               ← decOf (fldD o "cutoff" (jArr [toJson (1 : Int), toJson (0 : Int)])),
               ← decOf (fldD o "neighbourhood" (jArr [toJson (1 : Int), toJson (0 : Int)]))⟩
@@ -124,6 +134,7 @@ def handle (j : Json) : R Json := do
       | .error _ => pure []
     return reply input out HmmDet.toJson (HmmDet.valid ctx)
       ([("may_reuse", toJson (Spec.hmmDetMayReuse ctx opts input)), ("protos", jArr protos),
+        ("rule_names", jStrs opts.ruleNames),
         ("annotations", jArr annotations)] ++ produced)
   | "ruleres" =>
     return reply input (RuleRes.fromJson ctx input) RuleRes.toJson (RuleRes.valid ctx)
